@@ -316,6 +316,9 @@ func (r *coreRun) compare(st map[string]interface{}) {
 				if ea == nil && eb == nil && !eqStrMap(va, vb) {
 					r.violate("convergence", fmt.Sprintf("replicas %s and %s hold the same entries but show different views", a, b), va, vb)
 				}
+			} else if xa, xb := r.storeList(a), r.storeList(b); !eqInts(xa, xb) {
+				// the contents of an event log are what its List returns (the ordered entry list), not what its log holds
+				r.violate("convergence", fmt.Sprintf("replicas %s and %s hold the same entries but List different entry lists", a, b), xa, xb)
 			}
 			if !eqInts(r.c.heads(a), r.c.heads(b)) {
 				r.violate("convergence", fmt.Sprintf("replicas %s and %s hold the same entries but different heads", a, b), r.c.heads(a), r.c.heads(b))
@@ -431,6 +434,24 @@ func (r *coreRun) proj(name string) map[string]interface{} {
 		}
 	}
 	return p
+}
+
+// storeList: what the event log store lists (ids), in its order
+func (r *coreRun) storeList(name string) []int {
+	all := -1
+	ops, err := r.c.refs[name].S.(orbitdb.EventLogStore).List(context.Background(), &iface.StreamOptions{Amount: &all})
+	out := []int{}
+	if err != nil {
+		return []int{-2}
+	}
+	for _, op := range ops {
+		if id, ok := r.c.ids[op.GetEntry().GetHash().String()]; ok {
+			out = append(out, id)
+		} else {
+			out = append(out, -1)
+		}
+	}
+	return out
 }
 
 // apply executes one specification step on the real code.
